@@ -288,7 +288,16 @@ func (x *Exec) doAlloc(st *State, pt types.Type, comment string) Val {
 	a := x.addrOf(p)
 	if at, ok := el.Underlying().(*types.Array); ok {
 		// zero array object in element memory
-		_ = at
+		if _, single := x.sorts.scalarSort(at.Elem()); !single {
+			for _, l := range x.sorts.leaves(at.Elem()) {
+				name := "mem_" + typeKey(at.Elem()) + l.suffix
+				hs := "(Array Int (Array " + x.sorts.Idx() + " " + l.sort + "))"
+				arr := x.heapArr(st, name, hs)
+				zeroArr := fmt.Sprintf("((as const (Array %s %s)) %s)", x.sorts.Idx(), l.sort, x.zeroLeaf(l))
+				x.heapSet(st, name, hs, sto(arr, r, zeroArr))
+			}
+			return p
+		}
 		x.store(st, a, x.zeroVal(el))
 		return p
 	}
